@@ -81,7 +81,7 @@ def round_trip(ctx):
        note="a vertex is moved after assembly; also with deleted operations anywhere in the depot")
 def backport_moved(ctx):
     si = ctx.case
-    prog = Program(SEEDS[si])
+    prog = Program(SEEDS[si], offset_scale=(si % 3 == 2))
     mesh = prog.mesh
     mesh.assemble()
     d = np.array([0.013, -0.021, 0.017])
